@@ -75,6 +75,13 @@ fn main() {
             }
         }
     }));
+    if check == "ioprobe" {
+        // run in a child process by the checks that use the wrapper layer: a stack overflow / abort inside the
+        // crate's glue cannot be caught in-process
+        fschecks::io_probe();
+        println!("ioprobe ok");
+        return;
+    }
     let ctx = Ctx { seed, thorough, model_path, replay };
     let report: Report = match check.as_str() {
         "c19" => pure_checks::c19(&ctx),
